@@ -78,6 +78,8 @@ macro_rules! gate_harness {
         }
     };
 }
+gate_harness!(sig_gate_differs_2, 2, true, 26);
+gate_harness!(sig_gate_equal_2, 2, false, 26);
 gate_harness!(sig_gate_differs_6, 6, true, 26);
 gate_harness!(sig_gate_equal_6, 6, false, 26);
 gate_harness!(sig_gate_differs_12, 12, true, 26);
